@@ -39,6 +39,9 @@ func perFuncLog(calls []CallRec) string {
 	return b.String()
 }
 
+// modelRetAcc: the case being modelled has id()/first() return Accessors of their own.
+var modelRetAcc bool
+
 // plainView unwraps accessors: C14 is about the values, not about the wrapping.
 func plainView(res []interface{}) []interface{} {
 	out := make([]interface{}, len(res))
@@ -86,6 +89,8 @@ func modelFunctions(V []interface{}, single bool, funcs []int, faults [nFuncs]ui
 				if call(f, v) {
 					if f == fTag {
 						next = append(next, tagOf(v, variant))
+					} else if f == fID && modelRetAcc {
+						next = append(next, foreignAccessor(v))
 					} else {
 						next = append(next, v)
 					}
@@ -111,6 +116,9 @@ func modelFunctions(V []interface{}, single bool, funcs []int, faults [nFuncs]ui
 		case fFirst:
 			if len(arg) > 0 {
 				r = arg[0]
+				if modelRetAcc {
+					r = foreignAccessor(arg[0])
+				}
 			}
 		case fRet:
 			r = listArg(arg)
@@ -225,6 +233,12 @@ func runC14() *RunResult {
 	w.shared = []*ParsedFn{shared}
 	_ = ref
 
+	// in some accessor-mode cases id() and first() hand back Accessors of their own making (a
+	// function that uses accessor-mode Retrieve itself): values like any other, which the
+	// library wraps like any other
+	retAcc := cfg.Accessor && chance(25)
+	modelRetAcc = retAcc
+	defer func() { modelRetAcc = false }()
 	// fault plans
 	free := modelFunctions(V, p.SingleValued, fl, [nFuncs]uint64{}, cfg.Variant)
 	n := len(free.calls)
@@ -284,7 +298,9 @@ func runC14() *RunResult {
 			expFail := modelFunctions(V, p.SingleValued, fl, asFault, cfg.Variant)
 			o := &Op{Kind: opCustom, Path: p, Cfg: cfg, Panics: pn}
 			o.Do = func(t *Task, o *Op) {
+				t.rec.RetAcc = retAcc
 				res, out := safeCall(shared.Fn, deepCopy(doc.Val))
+				t.rec.RetAcc = false
 				o.Got, o.GotLog = out, perFuncLog(t.rec.Calls)
 				if simrt.Aborted() != 0 || t.rec.Panicked == 0 {
 					return
@@ -315,7 +331,9 @@ func runC14() *RunResult {
 		o.Do = func(t *Task, o *Op) {
 			// every evaluation gets its own copy of the document: if the library damages the
 			// document (C04's subject) later evaluations must not inherit the damage
+			t.rec.RetAcc = retAcc
 			res, out := safeCall(shared.Fn, deepCopy(doc.Val))
+			t.rec.RetAcc = false
 			o.Got, o.GotLog = out, perFuncLog(t.rec.Calls)
 			if t.rec.Bad != "" {
 				o.GotLog += "BAD:" + t.rec.Bad
@@ -391,6 +409,9 @@ func runC14() *RunResult {
 	}
 	if cfg.Accessor {
 		res.Probes["accessor-mode-case"]++
+		if retAcc {
+			res.Probes["user-function-returned-an-accessor-of-its-own"]++
+		}
 	}
 	if p.Model != nil {
 		res.Probes["prefix-values-from-the-reference-model"]++
